@@ -345,6 +345,17 @@ GROUPS = {
         functions=['tls::name::{encode, decode}', 'ServerCertificateVerifier::{verify_server_cert, verify_tls13_signature}', 'ClientCertificateVerifier::{verify_client_cert, verify_tls13_signature}',
                    'Ed25519Dalek::verify_signature', 'ResolveRawPublicKeyCert / IrohSecretKey (signing)'],
     ),
+    # second line behind the Verus unit addr_map and the Kani harnesses (C18): schedules
+    'addr_map_bx': dict(
+        unit='addr_map.rs', props=['C18'],
+        bounds=dict(quick=['5', '1'], thorough=['7', '1']),
+        space='(a) every history of at most {0} calls from 7 — get of three keys, lookup of the three addresses the generator can produce first and of an address it never '
+              'produces — with an address generator that yields every value twice (the uniqueness loop has to go round), compared with a reference bijection after every call; '
+              '(b) EVERY schedule of two threads looking up the same key / different keys in opposite orders / a get against lookups, and (if {1} = 1) three threads with at '
+              'most 3 pre-emptions. NOT covered: the classification of socket addresses (Kani harnesses), the real random generator, the three concrete maps of remote_map.rs',
+        nontrivial='histories with at least three gets; all schedules',
+        functions=['AddrMap::{default, get, lookup}', 'AddrMapInner::default'],
+    ),
     # second line behind the Verus unit hooks
     'hooks_bx': dict(
         unit='hooks.rs', props=['C42'],
@@ -492,7 +503,10 @@ def run_group(g, prop, tier='quick', only=None):
                 if owner == '#const':
                     extra_tail += f'\n//@item {relpath} const {fname}\n'
                 elif owner:
-                    extra_tail += f'\nimpl {owner} {{\n//@fn {relpath} {src_owner}::{fname}\n//@end\n}}\n'
+                    # a unit may state the impl header of a generic owner: `// @impl-header Owner: impl<K, V> Owner<K, V> where ...`
+                    hm = re.search(r'^// @impl-header ' + re.escape(owner) + r': (.+)$', open(os.path.join(HERE, 'units', d['unit'])).read(), re.M)
+                    header = hm.group(1).strip() if hm else f'impl {owner}'
+                    extra_tail += f'\n{header} {{\n//@fn {relpath} {src_owner}::{fname}\n//@end\n}}\n'
                 else:
                     extra_tail += f'\n//@fn {relpath} {fname}\n//@end\n'
         res['auto_extracted'] = [f'{o + "::" if o and o != "#const" else ""}{f} ({r})' for (o, f, r, _s) in auto]
